@@ -63,7 +63,32 @@ func rawTLVs(r *Rng) []byte {
 		binary.BigEndian.PutUint16(h[:], tag)
 		binary.BigEndian.PutUint16(h[2:], uint16(l))
 		b = append(b, h[:]...)
-		b = append(b, r.Bytes(l)...)
+		b = append(b, biasedBytes(r, l)...)
+	}
+	return b
+}
+
+// biasedBytes: value octets as other implementations send them — leading zero octets (small integers in
+// wide fields), all zeros, all ones, counting sequences — besides uniform noise.
+func biasedBytes(r *Rng, l int) []byte {
+	b := r.Bytes(l)
+	switch r.Intn(6) {
+	case 0:
+		for i := range b {
+			b[i] = 0
+		}
+	case 1:
+		for i := 0; i < len(b) && i <= r.Intn(3); i++ {
+			b[i] = 0
+		}
+	case 2:
+		for i := range b {
+			b[i] = 0xFF
+		}
+	case 3:
+		for i := range b {
+			b[i] = byte(i + 1)
+		}
 	}
 	return b
 }
